@@ -121,21 +121,48 @@ theorem C07_concurrent_crash_step (s0 : St) (h0 : Seq.Inv s0) (specs : List Spec
       s'.st.budget = c.1.base.budget + o.interval := by
   have hi := inv_reach s0 specs hr
   obtain ⟨i, _, hst, _⟩ := env_step hs
-  obtain ⟨hab, _⟩ := crash_ok hi
+  obtain ⟨hab, _, hnw⟩ := crash_ok hi
+  have hne : c.1.cp = .nextWrite → lease (mark c.1.base) o.interval ≠ 0 := by
+    intro hcp
+    obtain ⟨o', ho', _, hz⟩ := hnw hcp
+    rw [hobj] at ho'; cases ho'; exact hz
   have hm : mark c.1.st = mark (step c.1.base (.crash c.1.cp)).1 := by
     rw [← mark_abandon, hab, mark_abandon]
   have hcf := crash_frontier (base_inv h0 hi) hobj c.1.cp
   rw [hst, frontier_new, hm]
   refine ⟨hcf.1, hcf.2, ?_⟩
   have hb : (abandon c.1.st).budget = (abandon (step c.1.base (.crash c.1.cp)).1).budget := by rw [hab]
-  have hb2 := C07_budget_step c.1.base (.crash c.1.cp)
-  have hon : (step c.1.base (.crash c.1.cp)).1.obj = none := by
-    cases hl : hasLease o <;> cases hcp : c.1.cp <;> simp [step, hobj, hl, abandon]
-  have hbb : (step c.1.base (.crash c.1.cp)).1.budget = c.1.base.budget + o.interval := by
-    cases hl : hasLease o <;> cases hcp : c.1.cp <;> simp [step, hobj, hl, abandon]
+  have hon : (step c.1.base (.crash c.1.cp)).1.obj = none ∧
+      (step c.1.base (.crash c.1.cp)).1.budget = c.1.base.budget + o.interval := by
+    cases hcp : c.1.cp with
+    | nextWrite =>
+      have hz := hne hcp
+      cases hl : hasLease o <;> simp [step, hobj, hl, abandon, hz]
+    | idle => simp [step, hobj, abandon]
+    | nextRead => cases hl : hasLease o <;> simp [step, hobj, hl, abandon]
+    | relWrite => cases hl : hasLease o <;> simp [step, hobj, hl, abandon]
   show (step c.1.st (.new i)).1.budget = _
   have : (step c.1.st (.new i)).1.budget = (abandon c.1.st).budget := rfl
-  rw [this, hb, abandon_budget, hon, hbb]; simp
+  rw [this, hb, abandon_budget, hon.1, hon.2]; simp
+
+/-- **No wrap-around**, also in the middle of a method: in every reachable configuration the stored
+mark and the object's `next` / `reserved` are at most `cap` = `math.MaxUint64` and every number handed out is
+below it — every value a micro-step computes (`seq.next + lease`, `seq.next++`, the value `Release`
+writes) is one of these values of the successor state, so the code's `uint64` arithmetic coincides with the
+model's `Nat` arithmetic (lifted from `C07_no_wrap`; `Bnd Seq.init` is `bnd_init`). -/
+theorem C07_concurrent_no_wrap (s0 : St) (h0 : Seq.Inv s0) (hb0 : Bnd s0) (specs : List Spec)
+    {c : Cfg Shared Thread} (hr : Reach sys (initSh s0, specs.map spawn) c) :
+    mark c.1.st ≤ cap ∧ (∀ o, c.1.st.obj = some o → o.next ≤ cap ∧ o.reserved ≤ cap) ∧
+      (∀ e ∈ c.1.log, e.2 < cap) := by
+  have hi := inv_reach s0 specs hr
+  obtain ⟨h1, h2⟩ := conc_bnd h0 hb0 hi
+  refine ⟨h1, h2, fun e he => ?_⟩
+  have hb := base_bnd h0 hb0 hi
+  have hlt := (base_inv h0 hi).below_mark e.2 (by
+    rw [hi.lognums]
+    simp only [List.mem_append, List.mem_reverse, List.mem_map]
+    exact Or.inl ⟨e, he, rfl⟩)
+  exact Nat.lt_of_lt_of_le hlt hb.mark_le
 
 /-- **A clean Release wastes none**, under concurrency: whenever the last linearised event is a
 successful `Release` (of any goroutine, however its micro-steps were interleaved with blocked
@@ -179,7 +206,9 @@ theorem C07_concurrent_contiguous (s0 : St) (h0 : Seq.Inv s0) {o : Obj} (hobj : 
   simpa [front_eq] using hc
 
 /-- The lock / store-call skeletons (regenerated from kvstore/sequence.go on every run) that the
-micro-steps of `Hive/Model/SeqConc.lean` were written against. -/
+micro-steps of `Hive/Model/SeqConc.lean` were written against; in `update`: the store read, the cap of the
+lease (`if{ }if`), the early return `ErrSequenceExhausted` (`if{ return }if`, the edge `uNext → unlock err`),
+then the store write. -/
 theorem C07_concurrent_skeleton :
     Hive.Gen.C07Skel.skel_Sequence_Next =
       ["lock seq", "defer unlock seq", "if{", "helper update", "if{", "return", "}if", "}if", "return"] ∧
@@ -187,8 +216,8 @@ theorem C07_concurrent_skeleton :
       ["lock seq", "defer unlock seq", "if{", "return", "}if", "call seq.store.Set", "if{", "return", "}if",
         "return"] ∧
     Hive.Gen.C07Skel.skel_Sequence_update =
-      ["call seq.store.Get", "switch{", "case", "case", "return", "case", "}switch", "call seq.store.Set", "if{",
-        "return", "}if", "return"] := by decide
+      ["call seq.store.Get", "switch{", "case", "case", "return", "case", "}switch", "if{", "}if", "if{", "return",
+        "}if", "call seq.store.Set", "if{", "return", "}if", "return"] := by decide
 
 /-! ### Non-vacuity: concrete interleaved schedules, replayed on the model by `runSched` -/
 
@@ -230,10 +259,22 @@ example : exampleCrashInUpdate.1.log = [] ∧
     exampleCrashInUpdate.2[3]? = some (.gor { id := 3, epoch := 2, script := [], pc := .idle, got := [.err] }) := by
   decide
 
+/-- An exhausted `Next` (the mark is at `cap`: the early return `ErrSequenceExhausted` of `update`): Lock, lease
+test, store read, `seq.next = num` + empty lease → the call is linearised as the sequential `next` answering
+`err`, nothing is handed out or written, the mutex is released by the deferred Unlock. -/
+def exampleExhausted : Cfg Shared Thread :=
+  runSched sys (initSh { Seq.init with store := some cap, obj := some ⟨5, 0, 0⟩ }, [spawn (.gor 1 0 [.next])])
+    (List.replicate 5 (0, 0))
+
+example : exampleExhausted.1.log = [] ∧ histOps exampleExhausted.1.hist = [.next] ∧
+    histOuts exampleExhausted.1.hist = [.err] ∧ exampleExhausted.1.holder = none ∧
+    exampleExhausted.1.st.store = some cap ∧
+    exampleExhausted.2 = [.gor { id := 1, epoch := 0, script := [], pc := .idle, got := [.err] }] := by decide
+
 /-- The hypotheses of the theorems are satisfiable: `Hive.Seq.init` satisfies the sequential
 invariant, and so does every state reached by a sequential history (e.g. with a live object, as
 `C07_concurrent_contiguous` needs). -/
-example : Seq.Inv Seq.init := Seq.inv_init
+example : Seq.Inv Seq.init ∧ Bnd Seq.init := ⟨Seq.inv_init, bnd_init⟩
 example : Seq.Inv (final Seq.init [.new 3, .next]) ∧ (final Seq.init [.new 3, .next]).obj.isSome = true :=
   ⟨inv_final _ (by intro op hop; simp at hop; rcases hop with rfl | rfl <;> simp [Op.wf]) Seq.inv_init, by decide⟩
 
